@@ -20,7 +20,9 @@ struct Twin {
 
 impl Twin {
     fn start() -> Twin {
-        let exe = std::env::var("RBPF_MC_NOSTD").unwrap_or_else(|_| "/verif/mc-nostd/target/release/rbpf-mc-nostd".into());
+        // the twin built next to this binary: <root>/mc/target/release/rbpf-mc -> <root>/mc-nostd/target/release/rbpf-mc-nostd
+        let beside = std::env::current_exe().ok().and_then(|p| p.ancestors().nth(4).map(|r| r.join("mc-nostd/target/release/rbpf-mc-nostd"))).filter(|p| p.exists()).map(|p| p.to_string_lossy().to_string());
+        let exe = std::env::var("RBPF_MC_NOSTD").ok().or(beside).unwrap_or_else(|| "/verif/mc-nostd/target/release/rbpf-mc-nostd".into());
         let mut child = Command::new(&exe).stdin(Stdio::piped()).stdout(Stdio::piped()).stderr(Stdio::null()).spawn().unwrap_or_else(|e| panic!("cannot start {exe}: {e}"));
         let stdin = child.stdin.take().unwrap();
         let stdout = BufReader::new(child.stdout.take().unwrap());
